@@ -137,7 +137,23 @@ fn union_variant_matches_scalar_arg(
 }
 
 fn union_contains(union: &UnionTypeAnnotationDeclaration, potential_member: &UnionVariant) -> bool {
-    union.variants.contains(potential_member)
+    // Do not compare variants with ==, as list variants carry the location at which they
+    // were written, which differs between a variable definition and the schema.
+    union
+        .variants
+        .iter()
+        .any(|union_variant| match (union_variant, potential_member) {
+            (UnionVariant::Scalar(member), UnionVariant::Scalar(potential_member)) => {
+                member == potential_member
+            }
+            (UnionVariant::Plural(member), UnionVariant::Plural(potential_member)) => {
+                variable_type_satisfies_argument_type(
+                    potential_member.item.reference(),
+                    member.item.reference(),
+                )
+            }
+            _ => false,
+        })
 }
 
 pub fn value_satisfies_type<TCompilationProfile: CompilationProfile>(
